@@ -225,6 +225,34 @@ async fn client_side(rep: &mut Report, sizes: &[usize], thorough: bool) {
             }
         }
     }
+    // two local applications (different source ports) use the association in turn: every reply goes
+    // to the application whose datagram it answers (the last sender), never to the other one
+    {
+        let app_b = UdpSocket::bind("127.0.0.1:0").await.unwrap();
+        let apps = [&app, &app_b];
+        for (step, who) in [0usize, 1, 0, 1, 1, 0, 0, 1, 0].into_iter().enumerate() {
+            rep.case(Some(&format!("two applications, step {step}: {}", if who == 0 { "A" } else { "B" })));
+            let d = dgram(700 + step as u32, 40 + step);
+            let _ = apps[who].send_to(&d, laddr).await;
+            let got = collect_framed(&mut out, 1, 2000).await;
+            if got.len() != 1 || got[0] != d {
+                rep.violation("C15:datagram-not-identical", &format!("two applications, step {step}: the tunnel carried {:?}", got.iter().map(|x| x.len()).collect::<Vec<_>>()), json!({"engine": "SEMI", "side": "client"}));
+                break;
+            }
+            let back = dgram(800 + step as u32, 33 + step);
+            let _ = feed.send(Bytes::from(framed(&back)));
+            let right = recv_one(apps[who], 1500).await;
+            let wrong = recv_one(apps[1 - who], 30).await;
+            if wrong.is_some() || right.as_ref().map(|x| &x.0) != Some(&back) {
+                rep.violation(
+                    "C15:reply-delivered-to-other-application",
+                    &format!("two local applications A, B on one association, step {step}: the reply to {}'s datagram reached {} (the right one got {:?} bytes, the other one {:?} bytes)", if who == 0 { "A" } else { "B" }, if wrong.is_some() { "the OTHER application" } else { "nobody" }, right.map(|x| x.0.len()), wrong.map(|x| x.0.len())),
+                    json!({"engine": "SEMI", "side": "client", "step": step}),
+                );
+                break;
+            }
+        }
+    }
     // every 1-cut / 2-cut split of a 3-datagram return stream
     let set = vec![dgram(11, 2), dgram(12, 1), dgram(13, 6)];
     let mut bytes = vec![];
